@@ -204,10 +204,15 @@ def merge_states(states):
         if any(v is None for v in vals):
             continue  # declared in a branch only: dead afterwards
         v0 = vals[0]
-        if isinstance(v0, Ptr):
-            if all(isinstance(v, Ptr) and v.block is v0.block for v in vals):
-                nulls = [Z(v.null) for v in vals]
-                out.vars[key] = Ptr(v0.block, ite([Z(v.off) for v in vals]), v0.pointee, ite(nulls))
+        if isinstance(v0, Ptr) or any(isinstance(v, Ptr) for v in vals):
+            blks = {id(v.block): v.block for v in vals if isinstance(v, Ptr) and v.block is not None}
+            if all(isinstance(v, Ptr) for v in vals) and len(blks) <= 1:
+                # same target, or NULL/uninitialised in some branches (then its null flag is set there)
+                blk = next(iter(blks.values())) if blks else None
+                ref = next((v for v in vals if v.block is not None), v0)
+                nulls = [Z(v.null) if v.block is not None else z3.BoolVal(True) for v in vals]
+                offs = [Z(v.off) if v.block is not None else Z(ref.off) for v in vals]
+                out.vars[key] = Ptr(blk, ite(offs), ref.pointee, ite(nulls))
             else:
                 out.vars[key] = v0  # differing targets: not supported, keep first (checked on use)
         elif isinstance(v0, (FnRef, SizeOf)):
@@ -220,7 +225,9 @@ def merge_states(states):
     for b in blocks:
         vals = [s.mem.get(b) for s in states]
         if any(v is None for v in vals):
-            continue
+            # allocated in some branches only: contents are irrelevant where it does not exist
+            have = next(v for v in vals if v is not None)
+            vals = [v if v is not None else have for v in vals]
         out.mem[b] = ite(vals)
     gk = set()
     for s in states:
@@ -1328,6 +1335,9 @@ class CExec:
         tag = "loop%d" % ordinal
         pre_state = st.clone()
         Vpre = self.make_V(pre_state)
+        if not hasattr(self, "outer_pres"):
+            self.outer_pres = []
+        Vpre.__dict__["outer"] = list(self.outer_pres)
         if spec.define:
             base_inv = spec.invariant
             dfn = spec.define
@@ -1383,7 +1393,12 @@ class CExec:
         bd = h.clone()
         c_bd = to_bool(self.rvalue(bd, cond))
         bd.pc.append(c_bd)
-        for (x, fl, v) in self.exec_stmt(bd, body):
+        self.outer_pres.append(Vpre)
+        try:
+            body_outs = self.exec_stmt(bd, body)
+        finally:
+            self.outer_pres.pop()
+        for (x, fl, v) in body_outs:
             if fl in ("normal", "continue"):
                 if inc and inc.get("kind"):
                     self.rvalue(x, inc)
